@@ -330,7 +330,7 @@ impl Property for C08 {
         let scalar = prop_oneof![3 => -4.0f64..4.0, 1 => (-32i32..=32).prop_map(|k| k as f64 / 8.0), 1 => Just(1.0), 1 => Just(-1.0), 1 => Just(0.0)];
         (
             (0..TYPES.len(), dims_strategy(), 0..NFAM),
-            (-4.0f64..4.0, -4.0f64..4.0, -4.0f64..4.0),
+            (crate::c03::input_real(), crate::c03::input_real(), crate::c03::input_real()),
             (parts_pool(), parts_pool(), parts_pool()),
             (presence(), proptest::collection::vec(proptest::bool::weighted(0.75), 8)),
             (scalar, prop_oneof![-300i64..300, any::<i64>()], any::<u8>()),
